@@ -147,7 +147,7 @@ fn lines_strategy(tier: Tier, faults: bool) -> BoxedStrategy<Vec<String>> {
     } else {
         Just(None).boxed()
     };
-    (orphan, prop::collection::vec(record, 0..=max_rec))
+    (orphan, prop_oneof![60 => prop::collection::vec(record.clone(), 0..=max_rec), 1 => prop::collection::vec(record, 40..160)])
         .prop_map(|(o, recs)| {
             let mut lines = o.unwrap_or_default();
             for r in recs {
@@ -271,8 +271,10 @@ fn compare(got: &[ScanIndex], want: &[Record]) -> Result<(), String> {
 
 fn run_once(text: &[u8], c: &Case, fail_at: Option<usize>) -> (io::Result<Vec<ScanIndex>>, bool, usize, usize) {
     let mut r = SchedReader { data: text, pos: 0, chunks: &c.chunks, call: 0, fail_at, failed: false, interrupted: 0 };
+    // the BufRead's own buffer size varies with the case (1 .. 8192 bytes)
+    let cap = [32usize, 1, 7, 16, 64, 100, 1024, 8192][c.chunks.len() % 8];
     let res = {
-        let br = BufReader::with_capacity(32, &mut r);
+        let br = BufReader::with_capacity(cap, &mut r);
         ScanIndex::from_reader(br)
     };
     (res, r.failed, r.call, r.interrupted)
@@ -328,13 +330,24 @@ pub fn check(c: &Case, obs: &mut Obs) -> Result<(), String> {
     }
     if c.all_reads && want.is_ok() {
         // an I/O error at every read call of the sequence: the read must fail as a whole
-        for k in 0..reads {
+        // every read call of short sequences; at most ~300 evenly spaced positions of long ones
+        let step = (reads / 300).max(1);
+        for k in (0..reads).step_by(step) {
             if (c.chunks.get(k).copied()) == Some(0) {
                 continue; // this call is an Interrupted, keep it
             }
             let (res, failed, _, _) = run_once(text.as_bytes(), c, Some(k));
             obs.sub_evaluations += 1;
             obs.verdicts += 1;
+            if failed && (k == 0 || k + 1 == reads || k == reads / 2) {
+                // a failed read leaves nothing behind: the same input, read without a fault on
+                // the same thread, gives the model's records
+                if let (Ok(w), (Ok(g), _, _, _)) = (&want, run_once(text.as_bytes(), c, None)) {
+                    compare(&g, w).map_err(|e| format!("{} (clean read right after a read that failed with an I/O error at call #{})\ninput:\n{}", e, k, text))?;
+                } else {
+                    return Err(format!("clean read after a read that failed at call #{} does not succeed\ninput:\n{}", k, text));
+                }
+            }
             if failed {
                 obs.sub_nontrivial_distinct += 1;
                 if let Ok(v) = res {
